@@ -180,6 +180,9 @@ Definition mkplan (s : ast) (e : list Z) : plan :=
         if znz v then (if at_ W then act1 x (Kick a) else skip) else ok x
     | 46 => (* subscribe: wait_co.store(co): suspended from here on *)
         if at_ P1 then act1 x (Park a) else skip
+    | 47 => (* subscribe cancel re-check (since d874713): wait_co.take() -> some: the kernel half itself resumes the
+               suspended coroutine with Canceled; the cancel bit was set by the canceller's fetch_or (54) before *)
+        if znz v then (if at_ W then act1 x (CKick a) else skip) else ok x
     | 48 => (* Park::yield_back: reached without a yield only through the cancel short cut *)
         if at_ P1 then Some ([Step a], (fun m' => pc_eqb (apc (A m' a)) P2), x)
         else if at_ W then ok x else skip
